@@ -1461,6 +1461,11 @@ def _materialise(src):
                     pass
         elif isinstance(v, type) and v.__module__ == "vfprog":
             objs.append(("class", v))
+            for mname, mval in sorted(vars(v).items()):
+                if isinstance(mval, staticmethod):
+                    objs.append(("staticmethod-object", mval))
+                elif isinstance(mval, classmethod):
+                    objs.append(("classmethod-object", mval))
     return objs
 
 
@@ -1847,6 +1852,19 @@ def do_hist_op(op):
             txt2 = _norm_addr(out2.getvalue())
             return {"text": _digest(txt), "flags": [ln for ln in txt.splitlines() if ln.startswith("Flags")][:1],
                     "stdout_text": _digest(txt2), "stdout_flags": [ln for ln in txt2.splitlines() if ln.startswith("Flags")][:1]}
+        if k == "opcmod":
+            m = x.op_imports.get_opcode_module(tuple(int(q) for q in op["v"].split(".")), op.get("variant"))
+            return {"table": m.__name__, "version": list(m.version_tuple)}
+        if k == "lines2":
+            # one loaded code object, its line starts asked for twice (and its listing made in between)
+            t = x.load.load_module(fpath(op["f"]))
+            opc = x.disasm.get_opcode(t[0], t[4])
+            first = [[[a, b] for a, b in opc.findlinestarts(c)] for c in x_walk_codes(t[3])][:30]
+            for c in x_walk_codes(t[3]):
+                if len(c.co_code) < 600:
+                    list(x.bytecode.Bytecode(c, opc))
+            second = [[[a, b] for a, b in opc.findlinestarts(c)] for c in x_walk_codes(t[3])][:30]
+            return {"first": _digest(first), "second": _digest(second), "n": len(first)}
         if k == "labels":
             t = x.load.load_module(fpath(op["f"]))
             opc = x.disasm.get_opcode(t[0], t[4])
